@@ -382,3 +382,13 @@ Proof.
   destruct (lost (get h (conns st))) eqn:L; [rewrite (Lo h L) in Hh; discriminate|].
   rewrite Hh. reflexivity.
 Qed.
+
+(* ---- closing and reopening the database between lock events changes
+   nothing: a history with Reopen events behaves as the history without ---- *)
+Theorem L_xrun_erase xs : forall st, xrun st xs = run st (erase xs).
+Proof.
+  induction xs as [|x r IH]; intros st; cbn [xrun erase run]; [reflexivity|].
+  destruct x as [e|]; cbn [xstep erase run].
+  - destruct (step st e) as [s1 o1]. rewrite IH. reflexivity.
+  - rewrite IH. destruct (run st (erase r)) as [s2 o2]. reflexivity.
+Qed.
